@@ -243,11 +243,11 @@ def run_property(pid, tier, seed, only_shard=None):
         print("  key=%s: %s" % (key, merged["failures"][key]["text"]))
     wall = time.time() - t0
     write_evidence(pid, mod, tier, seed, merged, wall, len(new), known_seen, extra)
+    for r in merged["inconclusive"]:
+        print("INCONCLUSIVE property=%s: %s" % (pid, r), file=sys.stderr)
     if new:
         return 1
     if merged["inconclusive"]:
-        for r in merged["inconclusive"]:
-            print("INCONCLUSIVE property=%s: %s" % (pid, r), file=sys.stderr)
         return 2
     print(
         "HELD property=%s tier=%s seed=%s evaluations=%d distinct_nontrivial=%d "
